@@ -7,6 +7,8 @@ import (
 	"encoding/hex"
 	"encoding/json"
 	"fmt"
+	"os"
+	"path/filepath"
 	"sort"
 	"strings"
 	"sync"
@@ -32,6 +34,26 @@ const verifAnthropicStream = "event: message_start\ndata: {\"type\":\"message_st
 	"event: content_block_stop\ndata: {\"type\":\"content_block_stop\",\"index\":0}\n\n" +
 	"event: message_delta\ndata: {\"type\":\"message_delta\",\"delta\":{\"stop_reason\":\"end_turn\"},\"usage\":{\"output_tokens\":1}}\n\n" +
 	"event: message_stop\ndata: {\"type\":\"message_stop\"}\n\n"
+
+var (
+	verifInspectOnce sync.Once
+	verifInspectPath string
+)
+
+// verifInspectDir: a scratch directory for the request inspector's logs (older ones are swept)
+func verifInspectDir() string {
+	verifInspectOnce.Do(func() {
+		if old, _ := filepath.Glob(filepath.Join(os.TempDir(), "verif-inspect-*")); old != nil {
+			for _, o := range old {
+				if st, err := os.Stat(o); err == nil && time.Since(st.ModTime()) > 10*time.Minute {
+					_ = os.RemoveAll(o)
+				}
+			}
+		}
+		verifInspectPath, _ = os.MkdirTemp("", "verif-inspect-")
+	})
+	return verifInspectPath
+}
 
 func verifNativeTypes() []string {
 	out := []string{}
@@ -88,6 +110,16 @@ func TestVerif_Passthrough(t *testing.T) {
 		stk, err := verifBoot("sherpa", "priority", "auto", opts, func(c *config.Config) {
 			c.Translators.Anthropic.Enabled = true
 			c.Translators.Anthropic.PassthroughEnabled = sc.PT
+			// legal configuration corners: "use the default size limit" (0), and the request inspector switched on
+			// (it logs requests; what is forwarded must not depend on it)
+			if sn%2 == 0 {
+				c.Translators.Anthropic.MaxMessageSize = 0
+			}
+			if sn%4 >= 2 {
+				c.Translators.Anthropic.Inspector.Enabled = true
+				c.Translators.Anthropic.Inspector.OutputDir = verifInspectDir()
+				c.Translators.Anthropic.Inspector.SessionHeader = "X-Session-ID"
+			}
 		})
 		if err != nil {
 			b.Emit("Reset", "scn", sn, "booted", false, "err", err.Error(), "pt", sc.PT, "stream", sc.Stream, "native", []string{},
